@@ -11,6 +11,7 @@ import (
 	"github.com/ipfs/go-cid"
 	"pgregory.net/rapid"
 
+	"berty.tech/go-orbit-db/stores/operation"
 	"berty.tech/weshnet/v2/internal/vacct"
 	"berty.tech/weshnet/v2/pkg/errcode"
 	"berty.tech/weshnet/v2/pkg/protocoltypes"
@@ -75,7 +76,17 @@ func TestVerif_C08_GroupContexts(t *testing.T) {
 		n := rapid.IntRange(1, 5).Draw(rt, "n")
 		var ids []string
 		payload := map[string][]byte{}
+		// any member can append an entry that is no message envelope at all; it travels in the same batches
+		poisonAt := -1
+		if rapid.Bool().Draw(rt, "poison") {
+			poisonAt = rapid.IntRange(0, n-1).Draw(rt, "poisonAt")
+		}
 		for i := 0; i < n; i++ {
+			if i == poisonAt {
+				if _, err := agc.MessageStore().AddOperation(vCtx, operation.NewOperation(nil, "ADD", []byte("this is not a message envelope")), nil); err != nil {
+					rt.Fatalf("harness: %v", err)
+				}
+			}
 			p := []byte(fmt.Sprintf("message-%d", i))
 			op, err := agc.MessageStore().AddMessage(vCtx, p)
 			if err != nil {
@@ -181,6 +192,6 @@ func TestVerif_C08_GroupContexts(t *testing.T) {
 		catchUp := plan == "metadata,messages,activate" || plan == "messages,metadata,activate"
 		acct.Case(catchUp, fmt.Sprintf("gc|%s|%s|%d", kind, plan, n), func() any {
 			return map[string]any{"kind": "group-contexts", "group": kind, "plan": plan, "messages": n}
-		}, "group-context", lbl07(catchUp, "group-context/parked-before-catch-up"))
+		}, "group-context", lbl07(catchUp, "group-context/parked-before-catch-up"), lbl07(poisonAt >= 0, "group-context/undecodable-entry-in-the-batch"))
 	})
 }
